@@ -6,6 +6,7 @@ import (
 	"path/filepath"
 	"sort"
 	"strconv"
+	"strings"
 	"sync"
 	"time"
 )
@@ -40,10 +41,14 @@ func selftest(args []string) int {
 	gmp := []string{"1", "4", "16", "2", "8", "16"}
 	bad := 0
 	type target struct{ engine, prop string }
-	targets := []target{{"exec", "C04"}, {"exec", "C07"}, {"exec", "C12"}}
-	for id, p := range props {
-		if p.Engine == "crash" && id == "C10" {
-			targets = append(targets, target{"crash", id})
+	targets := []target{{"exec", "C04"}, {"exec", "C07"}, {"exec", "C12"}, {"crash", "C10"}, {"crash", "C11"}, {"store", "C13"}, {"store", "C15"}}
+	if len(args) > 3 {
+		// selftest determinism <runs> <repeats> <engine>/<profile>
+		targets = nil
+		for _, a := range args[3:] {
+			if e, p, ok := strings.Cut(a, "/"); ok {
+				targets = append(targets, target{e, p})
+			}
 		}
 	}
 	for _, tg := range targets {
